@@ -276,7 +276,7 @@ func c09Run(w *W) {
 		if !w.thorough() && (name == "D2" || name == "D3") {
 			return
 		}
-		if name == "D3" {
+		if name == "D3" || name == "WN" {
 			return
 		}
 		key := strings.Join(texts, "\x00")
@@ -289,6 +289,12 @@ func c09Run(w *W) {
 		}
 		ss := syms(append(append([]string{}, texts...), "\n")...)
 		c09Sentence(w, ss)
+		// the multi-line layout as a base of its own: comments, blanks and extra newlines at every inner newline
+		if m := gramParse(ss); m.ok {
+			if ml := multiLine(ss, m); render(ml).src != render(ss).src {
+				c09Sentence(w, ml)
+			}
+		}
 	})
 }
 
